@@ -109,6 +109,7 @@ var seedExpectations = []seedExpect{
 	{"globals-write", "C12", "globals.nowrite", "typeNameCache"},
 	{"rzsw-nomerge", "C02", "spirv.mergefirst", "emitImageLoadRZSW"},
 	{"if-block-dropped", "C02", "spirv.blockstate", "emitIf"},
+	{"type-bytext", "C15", "type.bytext", "writeFunctionBody"},
 }
 
 // overlayFromPatch materialises the files a unified diff touches, patches
